@@ -21,11 +21,109 @@ pub fn run(rep: &mut Report) {
     // a second family: many loggers, deep names
     let n2 = if rep.tier == "thorough" { 10_000 } else { 400 };
     run_cases(rep, "deep", n2, |rep, rng, _| one_config(rep, rng, 24, 7));
+    // records logged from inside an appender
+    run_cases(rep, "nested", if rep.tier == "thorough" { 4000 } else { 400 }, nested);
     // a third family: a few loggers hundreds to thousands of components deep
     run_cases(rep, "very-deep", if rep.tier == "thorough" { 280 } else { 56 }, very_deep);
     rep.require(rep.counter("deliveries_compared") > 1000, "fewer than 1000 deliveries compared");
     rep.require(rep.counter("probes_effective_nonroot") > 100, "too few probes reached a non-root logger");
     rep.require(rep.counter("probes_via_additive_chain") > 20, "too few probes exercised additive inheritance");
+}
+
+/// An appender that, while handling a record, logs another record through the same logger (a wrapper that
+/// reports its own activity, a `Display` implementation that logs): the nested record is routed like any other.
+#[derive(Debug)]
+struct NestCap {
+    sink: Sink,
+    logger: std::sync::Arc<std::sync::OnceLock<std::sync::Arc<log4rs::Logger>>>,
+    nested_target: String,
+    nested_level: log::Level,
+}
+
+impl log4rs::append::Append for NestCap {
+    fn append(&self, record: &log::Record) -> anyhow::Result<()> {
+        let id = record.args().to_string().parse::<u64>().unwrap_or(u64::MAX);
+        self.sink.lock().unwrap().push(("NEST".to_owned(), id));
+        if id < 1_000_000 {
+            if let Some(l) = self.logger.get() {
+                log::Log::log(&**l, &log::Record::builder().target(&self.nested_target).level(self.nested_level)
+                    .args(format_args!("{}", id + 1_000_000)).build());
+            }
+        }
+        Ok(())
+    }
+    fn flush(&self) {}
+}
+
+fn nested(rep: &mut Report, rng: &mut Rng, _idx: u64) {
+    use log4rs::config::{Appender, Config, Logger, Root};
+    let mut spec = gen_spec(rng, 6, 4);
+    // NEST is attached to the root and, now and then, to a logger
+    spec.appenders.push("NEST".into());
+    spec.root_appenders.push("NEST".into());
+    if !spec.loggers.is_empty() && rng.chance(1, 2) {
+        let k = rng.usize_below(spec.loggers.len());
+        spec.loggers[k].appenders.push("NEST".into());
+    }
+    let targets = probe_targets(&spec, rng);
+    let nested_target = rng.pick(&targets).clone();
+    let nested_level = *rng.pick(&LEVELS);
+    let sink = new_sink();
+    let cell = std::sync::Arc::new(std::sync::OnceLock::new());
+    let mut b = Config::builder();
+    for a in &spec.appenders {
+        let boxed: Box<dyn log4rs::append::Append> = if a == "NEST" {
+            Box::new(NestCap { sink: sink.clone(), logger: cell.clone(), nested_target: nested_target.clone(), nested_level })
+        } else {
+            Box::new(Cap { name: a.clone(), sink: sink.clone() })
+        };
+        b = b.appender(Appender::builder().build(a.clone(), boxed));
+    }
+    for l in &spec.loggers {
+        b = b.logger(Logger::builder().additive(l.additive).appenders(l.appenders.clone()).build(l.name.clone(), l.level));
+    }
+    let cfg = match b.build(Root::builder().appenders(spec.root_appenders.clone()).build(spec.root_level)) {
+        Ok(c) => c,
+        Err(e) => {
+            rep.violation("C01:valid-config-rejected", json!({"spec": spec.to_json(), "error": format!("{:?}", e)}));
+            return;
+        }
+    };
+    let logger = std::sync::Arc::new(log4rs::Logger::new_with_err_handler(cfg, Box::new(|_| {})));
+    let _ = cell.set(logger.clone());
+    let mut id = 0u64;
+    for t in targets.iter().take(12) {
+        for lvl in LEVELS {
+            id += 1;
+            sink.lock().unwrap().clear();
+            let r = trap::catch(|| log::Log::log(&*logger, &log::Record::builder().target(t).level(lvl).args(format_args!("{}", id)).build()));
+            if let Err(p) = r {
+                rep.violation(&format!("C01:panic:nested-log:{}", p.site()), json!({"spec": spec.to_json(), "target": t, "panic": p.message}));
+                return;
+            }
+            let all: Vec<(String, u64)> = sink.lock().unwrap().drain(..).collect();
+            let mut outer: Vec<String> = all.iter().filter(|(_, r)| *r == id).map(|(n, _)| n.clone()).collect();
+            let mut inner: Vec<String> = all.iter().filter(|(_, r)| *r == id + 1_000_000).map(|(n, _)| n.clone()).collect();
+            outer.sort();
+            inner.sort();
+            let want_outer = spec.expected(t, lvl);
+            let nests = want_outer.iter().filter(|n| *n == "NEST").count();
+            let mut want_inner: Vec<String> = vec![];
+            for _ in 0..nests {
+                want_inner.extend(spec.expected(&nested_target, nested_level));
+            }
+            want_inner.sort();
+            rep.case(&format!("nested|{}|{}|{}|{}|{}", spec.to_json(), t, lvl, nested_target, nested_level), nests > 0);
+            rep.count("records_logged_from_inside_an_appender", nests as i64);
+            rep.count("deliveries_compared", (want_outer.len() + want_inner.len()) as i64);
+            if outer != want_outer || inner != want_inner {
+                rep.violation("C01:misroute:record-logged-while-another-is-being-delivered", json!({"spec": spec.to_json(),
+                    "outer": {"target": t, "level": lvl.to_string(), "expected": want_outer, "got": outer},
+                    "nested": {"target": nested_target, "level": nested_level.to_string(), "expected": want_inner, "got": inner}}));
+                return;
+            }
+        }
+    }
 }
 
 /// Loggers hundreds of components deep (around 255/256 and 65535/65536 bytes of name), declared child first.
